@@ -51,6 +51,10 @@ var bases = []base{
 		{"T", []fdef{f("F0", "T1", ""), f("F1", "[]int32", "")}},
 		{"T1", []fdef{f("G0", "int32", ""), f("G1", "*int32", "")}},
 	}},
+	{ID: "audit", Root: "T", Structs: []sdef{
+		{"T", []fdef{f("ID", "int64", "id"), f("Created", "int64", "created"), f("Updated", "*int64", "updated"), f("Note", "*string", "note"), f("First", "T1", "first"), f("Items", "[]T1", "items")}},
+		{"T1", []fdef{f("SKU", "string", "sku"), f("Created", "int64", "created"), f("Updated", "*int64", "updated"), f("Qty", "int32", "qty")}},
+	}},
 	{ID: "document", Root: "Document", Structs: []sdef{
 		{"Document", []fdef{f("DocID", "int64", "docid"), f("Links", "*Link", "link"), f("Names", "[]Name", "names")}},
 		{"Link", []fdef{f("Backward", "[]int64", "backward"), f("Forward", "[]int64", "forward")}},
@@ -166,6 +170,36 @@ func decorations(b base, thorough bool) []decor {
 					// split run: first field directly in Emb, the rest in Emb2 embedded in Emb
 					st3 := append(cloneStructs(st), sdef{"Emb", []fdef{run[0], {Type: "Emb2", Embedded: true}}}, sdef{"Emb2", run[1:]})
 					out = append(out, decor{Desc: fmt.Sprintf("embedsplit@%s.%d-%d", s.Name, i, j), Structs: st3})
+				}
+			}
+		}
+	}
+	// the same struct embedded at two places of the tree: every pair of
+	// identical runs (same field names, types and tags) in two different
+	// structs is replaced by one shared embedded type
+	for si := range b.Structs {
+		for sj := si + 1; sj < len(b.Structs); sj++ {
+			a, c := b.Structs[si].Fields, b.Structs[sj].Fields
+			for i := 0; i < len(a); i++ {
+				for k := 0; k < len(c); k++ {
+					for l := 1; i+l <= len(a) && k+l <= len(c); l++ {
+						same := true
+						for m := 0; m < l; m++ {
+							if a[i+m] != c[k+m] {
+								same = false
+							}
+						}
+						if !same {
+							break
+						}
+						st := cloneStructs(b.Structs)
+						run := append([]fdef(nil), a[i:i+l]...)
+						fa := append(append(append([]fdef(nil), a[:i]...), fdef{Type: "Emb", Embedded: true}), a[i+l:]...)
+						fc := append(append(append([]fdef(nil), c[:k]...), fdef{Type: "Emb", Embedded: true}), c[k+l:]...)
+						st[si].Fields, st[sj].Fields = fa, fc
+						st = append(st, sdef{"Emb", run})
+						out = append(out, decor{Desc: fmt.Sprintf("embedshared@%s.%d+%s.%d,len%d", b.Structs[si].Name, i, b.Structs[sj].Name, k, l), Structs: st})
+					}
 				}
 			}
 		}
@@ -336,7 +370,7 @@ func Main() {
 		ID:    "C14",
 		Level: "exploration",
 		Rule: "program enumeration: for each base struct definition (mini, three nested shapes, document, person without embedding) every insertion, at every field position of every struct of the shape, of (i) an unexported field (names hidden/x/_x/non-ASCII lower case) or (ii) an exported field tagged parquet:\"-\", over a menu of Go types (primitives, pointers, slices, arrays, maps, channels, funcs, interfaces, inline and named structs), " +
-			"and (iii) every replacement of a contiguous run of sibling fields by an embedded struct (also two deep and split). Each decorated program is generated, compiled and run next to its base: for every value with <= s constructor nodes (and pairs) the two writers' files must be byte-identical (excluded fields set to garbage), and reading into fresh decorated structs must leave excluded fields zero and return the values. " +
+			"and (iii) every replacement of a contiguous run of sibling fields by an embedded struct (also two deep and split), and every pair of identical runs in two different structs replaced by one shared embedded type (the same struct embedded at two places of the tree). Each decorated program is generated, compiled and run next to its base: for every value with <= s constructor nodes (and pairs) the two writers' files must be byte-identical (excluded fields set to garbage), and reading into fresh decorated structs must leave excluded fields zero and return the values. " +
 			"quick uses one name and five types; thorough the full product. distinct = decorated program",
 		Assumptions: []string{
 			"one decoration per program",
